@@ -87,7 +87,7 @@ func (s *SemMap) release(key interface{}, w *Weighted, n int) {
 	s.mux.Lock()
 	defer s.mux.Unlock()
 	var empty = w.release(n)
-	if empty {
+	if empty && w.cur == 0 {
 		delete(s.m, key)
 		return
 	}
